@@ -47,6 +47,66 @@ def sh(cmd, cwd=None, env=None, timeout=None, stdin=None):
     return p.returncode, p.stdout.decode("utf-8", "replace")
 
 
+def _group_rss_kib(pgid):
+    """Resident memory (KiB) of every process of process group `pgid`."""
+    tot = 0
+    for d in os.listdir("/proc"):
+        if not d.isdigit():
+            continue
+        try:
+            with open(f"/proc/{d}/stat") as f:
+                st = f.read()
+            rest = st[st.rindex(")") + 2:].split()
+            if int(rest[2]) != pgid:
+                continue
+            tot += int(rest[21]) * (os.sysconf("SC_PAGE_SIZE") // 1024)
+        except (OSError, ValueError, IndexError):
+            continue
+    return tot
+
+
+def sh_capped(cmd, cwd=None, env=None, timeout=None, rss_cap_gib=16):
+    """Like sh(), for the harness: the command runs in its own process group, which is killed as a whole when the time
+    limit passes (raises subprocess.TimeoutExpired) or when its resident memory exceeds `rss_cap_gib` (returns
+    rc = -9 and a message).  GOMEMLIMIT is only a soft target of the Go collector: code under test that allocates by a
+    corrupted length, or loops while appending, would otherwise take the whole machine with it."""
+    import signal, tempfile
+    e = dict(os.environ)
+    e.update(GOENV)
+    if env:
+        e.update(env)
+    with tempfile.TemporaryFile() as outf:
+        p = subprocess.Popen(cmd, cwd=cwd, env=e, stdout=outf, stderr=subprocess.STDOUT, stdin=subprocess.DEVNULL,
+                             start_new_session=True)
+        t0, killed = time.time(), None
+
+        def kill_group():
+            try:
+                os.killpg(p.pid, signal.SIGKILL)
+            except OSError:
+                pass
+        while True:
+            try:
+                p.wait(timeout=1.0)
+                break
+            except subprocess.TimeoutExpired:
+                pass
+            if timeout and time.time() - t0 > timeout:
+                kill_group(); p.wait()
+                raise subprocess.TimeoutExpired(cmd, timeout)
+            rss = _group_rss_kib(p.pid)
+            if rss > rss_cap_gib * 1024 * 1024:
+                killed = f"harness killed: its processes held {rss // (1024 * 1024)} GiB of resident memory (cap {rss_cap_gib} GiB)"
+                kill_group(); p.wait()
+                break
+        kill_group()   # stragglers of a harness that exited while children were still running
+        outf.seek(0)
+        out = outf.read().decode("utf-8", "replace")
+    if killed:
+        return -9, out[-4000:] + "\n" + killed
+    return p.returncode, out
+
+
 class LakeLock:
     """lake is serialised across concurrently running checks."""
     def __enter__(self):
@@ -348,13 +408,32 @@ def run_tie_part(ctx, spec, replay_file=None):
     args += spec.get("harness_args", {}).get(ctx.tier, [])
     env = {"GOMEMLIMIT": spec.get("gomemlimit", "8GiB")}
     t = spec.get("harness_timeout", {}).get(ctx.tier, 3000 if ctx.tier == "quick" else 14000)
+    def partial_findings():
+        # findings streamed by hx.Fail before the harness died (first occurrence of each signature, with the op lines
+        # of its case): the failing input survives a harness that was killed, crashed fatally or hung
+        fs = []
+        try:
+            for l in open(os.path.join(outdir, "oracle.partial.jsonl")):
+                try:
+                    fs.append(json.loads(l))
+                except ValueError:
+                    pass   # a line cut short by the kill
+        except OSError:
+            pass
+        return fs
     try:
-        rc, hout = sh(args, cwd=HARNESS, env=env, timeout=t)
+        os.remove(os.path.join(outdir, "oracle.partial.jsonl"))
+    except OSError:
+        pass
+    try:
+        rc, hout = sh_capped(args, cwd=HARNESS, env=env, timeout=t, rss_cap_gib=spec.get("rss_cap_gib", 16))
     except subprocess.TimeoutExpired:
         res["harness_error"] = f"harness timed out after {t}s"
+        res["findings"] = partial_findings()
         return res
     if rc != 0:
         res["harness_error"] = f"harness exited {rc}:\n" + tail(hout, 40)
+        res["findings"] = partial_findings()
         return res
     if hout.strip():
         ctx.log(tail(hout, 15))
